@@ -4,16 +4,64 @@ C01 — undefined_variable agrees with Lua's lexical scoping rules.
 Full statement (DESIGN §4 C01): for every chunk `c` and every identifier occurrence `o` in an
 expression position, the declaration the scope tables record for `o` is the one Lua's scoping
 rules give (`Spec.resolve`), hence the lint reports exactly the unbound, non-library, never
-assigned names.  STATUS: the resolution equivalence `analyse = Spec.resolve` is NOT yet a Lean
-theorem for this model; it is checked three-way (implementation tables / this model / `Spec.resolve`)
-on every fixture and generated program by the correspondence run, which is how the defects fixed in
-/repo (see known_findings.txt) were found.  Proved here, for all scope tables: what the lint
-reports given the tables.
+assigned names.
+
+Proved here:
+* `C01_resolution` (all chunks, no hypothesis): the scope-stack machine of `Scope/Core.lean` — scope
+  stack with `...` barriers, global reference log, hoisting with its rewrite of earlier unresolved
+  reads, eager reads before closures are entered, the if/elseif scope juggling, deferred loop
+  variables — records for every identifier read exactly the local declaration that `Spec.resolve`
+  (Lua 5.1 §2.6, environment passing, source order) assigns to it: the two answer lists are
+  permutations of each other.  `Core` is compared with the real `ScopeManager` on every program of the
+  correspondence run (every recorded read with its binding).
+* `C01_lint_sound`, `C01_once`: what `undefined_variable` reports given the scope tables, for all
+  tables (over the full ScopeVisitor model of `Scope/Model.lean`, compared table-by-table with the
+  implementation on every run).
+NOT a Lean theorem: that the full model's tables and `Core`'s reference log coincide (both are tied
+to the implementation by the correspondence run, not to each other by proof).
 -/
 import Selene.Scope.Lints
 import Selene.Scope.Spec
+import Selene.Scope.CoreProof
+import Selene.Scope.SpecProof
 namespace Selene.Props.C01
 open Selene.Scope Selene.Lua
+
+/-- **C01 (resolution).** For every chunk, the reads recorded by the scope-stack machine, each with
+the local declaration it resolves to (hoisted globals and blocked `...` counting as none), are
+exactly — as a multiset — the identifier occurrences in expression positions that Lua's scoping rules
+give, each with the declaration visible there. -/
+theorem C01_resolution (b : Block) :
+    (Core.analyse b).answers.Perm (SpecProof.reads (Spec.resolve b)) := by
+  rw [CoreProof.analyse_eq b]
+  exact (SpecProof.resolve_perm b).symm
+
+/-- the same, pointwise: an answer of the machine is an occurrence of the specification and vice versa -/
+theorem C01_resolution_mem (b : Block) (t : Nat) (d : Option Nat) :
+    (t, d) ∈ (Core.analyse b).answers ↔
+      ∃ oc ∈ (Spec.resolve b).occs, SpecProof.counted oc = true ∧ oc.tok = t ∧ oc.binding.map (·.1) = d := by
+  rw [(C01_resolution b).mem_iff]
+  simp only [SpecProof.reads, List.mem_map, List.mem_filter, Prod.mk.injEq]
+  constructor
+  · rintro ⟨oc, ⟨h1, h2⟩, h3, h4⟩; exact ⟨oc, h1, h2, h3, h4⟩
+  · rintro ⟨oc, h1, h2, h3, h4⟩; exact ⟨oc, ⟨h1, h2⟩, h3, h4⟩
+
+/-- `local x = 1; local function f(...) local x = x; g = x; return ..., g, y end` — shadowing, the
+    initialiser seeing the outer `x`, a hoisted global, a vararg, an unbound name -/
+def witness : Block :=
+  let t (i : Nat) (s : String) : Tok := ⟨i, s⟩
+  .mk none
+    (.cons (.localAssign ⟨0, 3⟩ [t 1 "x"] (.cons (.num (t 3 "1")) .nil))
+      (.cons (.localFunc ⟨4, 30⟩ (t 6 "f")
+        (.mk ⟨7, 30⟩ [.dots (t 8 "...")]
+          (.mk none
+            (.cons (.localAssign ⟨10, 13⟩ [t 11 "x"] (.cons (.var (.name (t 13 "x"))) .nil))
+              (.cons (.assign ⟨14, 16⟩ (.cons (.name (t 14 "g")) .nil) (.cons (.var (.name (t 16 "x"))) .nil)) .nil))
+            (.ret ⟨17, 22⟩ (.cons (.dots (t 18 "...")) (.cons (.var (.name (t 20 "g"))) (.cons (.var (.name (t 22 "y"))) .nil)))))))
+        .nil))
+    .none
+
+example : (Core.analyse witness).answers = [(13, some 1), (16, some 11), (18, some 8), (20, none), (22, none)] := by decide
 
 /-- the fold step of `undefined_variable` -/
 def step (hasFields : String → Bool) (acc : List Nat × List Diag) (r : Ref) : List Nat × List Diag :=
